@@ -780,11 +780,13 @@ class InstanceWriteProvider(BaseProvider):
                     _format("Modified instance {0!A} does not exist in "
                             "namespace {1!A}. Modify Failed", path, ns))
 
-        # Modify the instance path for each namespace
+        # Store a separate copy of the modified instance, with the path of
+        # that namespace, in each namespace
         for ns, path in modified_instance_paths.items():
             instance_store = self.cimrepository.get_instance_store(ns)
-            modified_instance.path = path
-            instance_store.update(modified_instance.path, modified_instance)
+            ns_instance = modified_instance.copy()
+            ns_instance.path = path
+            instance_store.update(path, ns_instance)
 
     @staticmethod
     def create_new_instance_path(creation_class, new_instance, namespace):
